@@ -399,6 +399,10 @@ def copies_case(case, res):
             for val, ok in menu:
                 if not ok:
                     continue
+                if cls in ("BasebandSignal", "DualPolarizationSignal") and k in ("sample_rate", "chan_bw"):
+                    # after such an assignment chan_bw != sample_rate, a state no constructor (hence no copy) can produce
+                    res.skipped["baseband: copy after sample_rate/chan_bw assignment (chan_bw is re-derived on creation)"] += 1
+                    continue
                 z = C(valid_array(cls, nchan), **base_kwargs(cls))
                 _ = (z.dt, z.time_length, getattr(z, "channel_freqs", None), getattr(z, "bandwidth", None), z.stop_time)
                 try:
